@@ -110,7 +110,7 @@ fn value_case(c: &J) -> J {
         Err(_) => "noenc",
     };
     json!({"k": "value", "ty": "value", "v": c["v"], "dec": dec_slice, "rd": dec_reader, "cons": consumed, "enc": tag(&enc), "re": re,
-           "rt": rt, "size": size, "tv": tv, "lazy": lazy, "same": "ok", "proj": "ok"})
+           "rt": rt, "size": size, "tv": tv, "tvback": tv, "tree": c["v"], "lazy": lazy, "same": "ok", "proj": "ok"})
 }
 
 /// Facts about one typed item decoded as `T`.
@@ -147,6 +147,8 @@ where
             match &first { None => first = Some(x), Some(f) => if !eqv(f, &x) { all_same = "differs" } }
         }
     }
+    let mut tree = json!({"t": "null"});
+    let mut tvback = "nodec";
     let (enc, re, rt, size, tv, pj) = match &first {
         None => ("nodec", vec![], "nodec", "nodec", "nodec", "nodec"),
         Some(x) => {
@@ -154,12 +156,14 @@ where
             let re = enc.clone().unwrap_or_default();
             let rt = match &enc { Ok(b) => match guarded(|| serde_amqp::from_slice::<T>(b)) { Ok(d) if eqv(&d, x) => "ok", Ok(_) => "wrong", Err(e) => e }, Err(_) => "noenc" };
             let size = match (&enc, guarded(|| serde_amqp::serialized_size(x))) { (Ok(b), Ok(n)) if n == b.len() => "ok", (Err(_), _) => "noenc", (_, Err(e)) => e, _ => "differs" };
-            // C20: typed -> value tree -> typed, and value tree -> bytes == typed -> bytes (as decoded values)
+            // C20: typed -> value tree; the tree is logged (abstract form) and judged by the spec;
+            // tree -> bytes must decode to x; tree -> typed (from_value) must give x back
             let tv = match guarded(|| serde_amqp::to_value(x)) {
                 Ok(t) => {
-                    let back = guarded(|| serde_amqp::from_value::<T>(t.clone()));
+                    tree = unbuild(&t);
                     let via = guarded(|| serde_amqp::to_vec(&t)).and_then(|b| guarded(|| serde_amqp::from_slice::<T>(&b)));
-                    match (back, via) { (Ok(a), Ok(b)) if eqv(&a, x) && eqv(&b, x) => "ok", (Err(e), _) | (_, Err(e)) => e, _ => "wrong" }
+                    tvback = match guarded(|| serde_amqp::from_value::<T>(t.clone())) { Ok(a) if eqv(&a, x) => "ok", Ok(_) => "wrong", Err(e) => e };
+                    match via { Ok(b) if eqv(&b, x) => "ok", Err(e) => e, _ => "wrong" }
                 }
                 Err(e) => e,
             };
@@ -167,7 +171,7 @@ where
         }
     };
     json!({"k": c["k"], "ty": c["ty"], "v": c["v"], "dec": dec, "rd": rdv, "cons": cons, "enc": enc, "re": re,
-           "rt": rt, "size": size, "tv": tv, "lazy": "ok", "same": all_same, "proj": pj})
+           "rt": rt, "size": size, "tv": tv, "tvback": tvback, "tree": tree, "lazy": "ok", "same": all_same, "proj": pj})
 }
 
 /// Equality of decoded typed items by their Debug rendering (several protocol types have no PartialEq).
@@ -269,7 +273,6 @@ pub fn main(args: &[String]) -> R<()> {
             n += 1;
         }
     }
-    let _ = unbuild; // used by the decode sub-command
     eprintln!("vh codec: {n} records");
     Ok(())
 }
